@@ -21,6 +21,17 @@ CLAIMS = {
         "real); aliases, handler tables and the call-level signature of 'put' are reflective scan obligations.",
    note="Trusted: pyvc's encoding of Python semantics, z3; SBlock.set_output contract (C02) with assumption A-C02; float = real "
         "arithmetic; amounts are numbers."),
+ 'C01': dict(
+   text="(1) Circuit._simulate with the quantified loop invariant: at the only await (the idle point) every combinational block's "
+        "output equals calc(b, current outputs), for every circuit, every burst order and with events sent by combinational blocks "
+        "(environment step under the delivery guarantee); SBlock.set_output queues a changed block on every exit edge. "
+        "(2) InputGetter.__getitem__/__getattr__, Not/Override/Compare/FuncBlock.calc_output, Compare/FuncBlock/And/Or/Xor "
+        "constructors and the Xor parity lambda are executed from the real AST against spec functions taken from the statement "
+        "(negation, override-unless-null, hysteresis thresholds, func applied to groups/named inputs with unpack on/off); "
+        "lemma idem(Compare) over the reals.",
+   note="Trusted: pyvc encoding, z3; wired(circuit) (C15); delivery guarantee G_set (C02); all()/any() built-ins; user functions "
+        "deterministic; == reflexive on outputs. Bounded (labelled): ~4400 small circuits through the real simulator compared with an "
+        "independent truth-table evaluation."),
  'C02': dict(
    text="SBlock.set_output, CBlock.eval_block, Event.send, _to_tuple, _is_multiple, event_tuple/efilter_tuple and their validators are "
         "executed from the real AST.  The activation's call trace is checked call by call against the sequence the property prescribes "
